@@ -530,13 +530,14 @@ def gen_request_case(g, tier, focus=None, c17=None):
         body = body_of(g, big)
         # a message relayed over UDP must fit into one datagram (65 507 bytes) after the proxy has added its own
         # Via / Record-Route: keep the rendered size under 60 000 by shortening the body, then the extension headers
-        hsize = sum(len(n) + len(v) + 6 for n, v in headers)
+        # (sizes are computed from the VALUES only, with a flat allowance per name: a respelled twin must be cut alike)
+        hsize = sum(24 + len(v.strip()) for n, v in headers)
         while hsize > 50000:
             k = max(range(len(headers)), key=lambda i: len(headers[i][1]))     # only the big extension values are that long
             if len(headers[k][1]) < 2000:
                 break
             headers[k] = (headers[k][0], headers[k][1][:len(headers[k][1]) // 2].strip())
-            hsize = sum(len(n) + len(v) + 6 for n, v in headers)
+            hsize = sum(24 + len(v.strip()) for n, v in headers)
         if hsize + len(body) > 60000:
             body = body[:60000 - hsize]
         eol = g.sp_pick(["\r\n", "\r\n", "\n"])
